@@ -67,6 +67,7 @@ type vfServerSide struct {
 	conns    []*vfkit.MemConn
 	dialErr  error
 	dialHook func() // called inside the dial
+	holdNew  bool   // connections dialled from now on start with their writes held
 }
 
 func (s *vfServerSide) dial(ctx context.Context) (net.Conn, error) {
@@ -79,6 +80,9 @@ func (s *vfServerSide) dial(ctx context.Context) (net.Conn, error) {
 		return nil, s.dialErr
 	}
 	c := vfkit.NewMemConn(s.datagram, len(s.conns))
+	if s.holdNew {
+		c.HoldWrites(true)
+	}
 	s.conns = append(s.conns, c)
 	return c, nil
 }
